@@ -6,6 +6,7 @@
 #include <dlfcn.h>
 
 void suite_wire(int), suite_hdr(int), suite_cksum(int), suite_endian(int), suite_valid(int);
+void suite_force(int), suite_args(int), suite_hist(int);
 void suite_rt(int), suite_nsc(int), suite_recon(int), suite_rsmat(int), suite_xor(int), suite_need(int);
 
 static struct { const char *name; void (*fn)(int); } SUITES[] = {
@@ -13,6 +14,7 @@ static struct { const char *name; void (*fn)(int); } SUITES[] = {
     { "endian", suite_endian }, { "valid", suite_valid },
     { "rt", suite_rt }, { "nsc", suite_nsc }, { "recon", suite_recon }, { "rsmat", suite_rsmat },
     { "xor", suite_xor }, { "need", suite_need },
+    { "force", suite_force }, { "args", suite_args }, { "hist", suite_hist },
 };
 
 int main(int argc, char **argv) {
